@@ -426,6 +426,12 @@ def apply_ic(b, units=None):
         import numpy as _np
         pos, spd = dict(pos, v=_np.float64(pos['v'])), dict(spd, v=_np.float64(spd['v']))
     b.last.angular_position = mkq(pos)
+    via = ic.get('angle_pos')
+    if via and pos['v'] >= 0:
+        # the initial position is handed over as an Angle (a legal AngularPosition) that was converted in place before
+        obj = g().un.Angle(SI.convert('Angle', float(pos['v']), pos['u'], via), via) if via != pos['u'] else g().un.Angle(pos['v'], via)
+        obj.to(pos['u'], inplace=True)
+        b.last.angular_position = obj
     b.last.angular_speed = mkq(spd)
     if ic.get('pwm') is not None:
         b.motor.pwm = ic['pwm']
@@ -589,7 +595,7 @@ def extract(b, raw=False):
                     else:
                         out.append(s)
                 else:
-                    if type(s).__name__ != kind:
+                    if not isinstance(s, getattr(g().un, kind)):          # an instance of the advertised kind (an Angle IS an AngularPosition)
                         tr.bad_kind.append((el.name, v, type(s).__name__))
                         out.append(float('nan'))
                     else:
